@@ -1024,7 +1024,9 @@ theorem registration_of_other_target_keeps (y : Res) (c tok m : Nat) (o2 : List 
       unfold matchSK at hm
       simp only [Bool.and_eq_true, beq_iff_eq] at hm
       obtain ⟨o1, w1, hk, hne⟩ := h s' hs' hm.1
-      exact hne ((obsKey_eq_iff o1 o2 w1 h2).mp (hk ▸ hm.2))
+      have e : s'.key = obsKey o2 := hm.2
+      rw [hk] at e
+      exact hne ((obsKey_eq_iff o1 o2 w1 h2).mp e)
     rw [hnone]
     exact List.mem_cons_of_mem _ hs
 
@@ -1284,5 +1286,154 @@ example : ∀ s ∈ ((run tokStart [.reg 0 0 (tokNat [0x51, 0x62]) 5 true 2]).1.
 example : underToken 0 [0x51, 0x62] (request (run tokStart (prefixTokenEvents.take 2)).1 (some 1) 0 0 (tokNat [0x51]) 7 true 3).1 =
     underToken 0 [0x51, 0x62] (run tokStart (prefixTokenEvents.take 2)).1 :=
   other_token_survives_cancel_request _ 0 0 7 true 3 [0x51] [0x51, 0x62] (by decide) (by decide) (by decide) (by decide)
+
+/-! ### GLOBAL: FETCH observations (RFC 8132, round R11c) — the identity of an observation is (method, cache-key options, FETCH payload)
+`reqKey code opts payload` (Model/ObserveKey.lean) is the transcription of coap_cache_derive_key_w_ignore after fix a4f9bc4: the
+method code, for FETCH the length of the payload and the payload, then the cache-key options.  `Event.reg c r tok key …` of M
+carries an ARBITRARY key, so every global theorem above (reregistration_replaces, observe_strictly_increasing_run,
+notes_only_to_listed, no_notification_after_cancel_run, ref_eq_holders, con_active_eq_queued, …) already quantifies over the
+histories with FETCH registrations; what is new here is what the key of such a request IS.  The driver hands M
+`scriptKey` = `reqKey 5 (options with Content-Format) payload` for a scripted FETCH and `obsKey opts = reqKey 1 opts []` for a GET. -/
+
+/-- two requests are "the same request" for an observation: same method, same cache-key options (numbers, lengths, values,
+    order), and — FETCH only — the same payload -/
+def SameRequest (m1 : Nat) (o1 : List ReqOpt) (p1 : List Nat) (m2 : Nat) (o2 : List ReqOpt) (p2 : List Nat) : Prop :=
+  m1 = m2 ∧ cacheOpts obsIgnore o1 = cacheOpts obsIgnore o2 ∧ (m1 = 5 → p1 = p2)
+
+/-- equal keys ⇔ same request: method, options AND (for FETCH) payload; nothing else is part of the key and nothing of these is
+    forgotten.  The direction → was FALSE before fix a4f9bc4 (`fetch_payload_aliased_before_fix`). -/
+theorem request_identity_exact (m1 m2 : Nat) (o1 o2 : List ReqOpt) (p1 p2 : List Nat) (hm1 : m1 < 256) (hm2 : m2 < 256)
+    (h1 : WfOpts o1) (h2 : WfOpts o2) (hp1 : WfPayload p1) (hp2 : WfPayload p2) :
+    reqKey m1 o1 p1 = reqKey m2 o2 p2 ↔ SameRequest m1 o1 p1 m2 o2 p2 :=
+  reqKey_eq_iff m1 m2 o1 o2 p1 p2 hm1 hm2 h1 h2 hp1 hp2
+
+/-- ETag, OSCORE, Observe, NoCacheKey options stay outside the identity of a FETCH observation too (any method, any payload) -/
+theorem request_identity_ignores (m : Nat) (a b : List ReqOpt) (o : ReqOpt) (p : List Nat) (h : isCacheKey obsIgnore o.num = false) :
+    reqKey m (a ++ o :: b) p = reqKey m (a ++ b) p :=
+  reqKey_eq_of_cacheOpts_eq m _ _ p (cacheOpts_ignores obsIgnore a b o h)
+
+/-- the payload of a request that is not a FETCH is not looked at -/
+theorem payload_only_part_of_fetch_identity (m : Nat) (a : List ReqOpt) (p q : List Nat) (h : m ≠ 5) : reqKey m a p = reqKey m a q :=
+  reqKey_ignores_payload_unless_fetch m a p q h
+
+/-- `reregistration_replaces` over the larger key space.  For ALL event sequences (GET and FETCH registrations, cancellations,
+    everything else): two entries a resource lists for one session have different tokens AND are registrations of different
+    requests — never the same method, cache-key options and payload.  Together with `registration_of_other_request_keeps`: two
+    registrations of a session coincide (the later one replaces / is the earlier one) iff same token or same request. -/
+theorem reregistration_replaces_requests (st : State) (evs : List Event) (h : NoDupSt st) :
+    ∀ y ∈ (run st evs).1.res, y.subs.Pairwise fun s1 s2 =>
+      s1.sess = s2.sess → s1.token ≠ s2.token ∧
+        ∀ (m1 m2 : Nat) (o1 o2 : List ReqOpt) (p1 p2 : List Nat), s1.key = reqKey m1 o1 p1 → s2.key = reqKey m2 o2 p2 →
+          ¬ SameRequest m1 o1 p1 m2 o2 p2 := by
+  intro y hy
+  have h1 := reregistration_replaces st evs h y hy
+  rw [List.pairwise_map] at h1
+  refine h1.imp ?_
+  intro s1 s2 hd hs
+  refine ⟨(hd hs).1, ?_⟩
+  intro m1 m2 o1 o2 p1 p2 hk1 hk2 hsame
+  apply (hd hs).2
+  show s1.key = s2.key
+  obtain ⟨rfl, ho, hp⟩ := hsame
+  rw [hk1, hk2]
+  by_cases h5 : m1 = 5
+  · rw [hp h5]
+    exact reqKey_eq_of_cacheOpts_eq m1 o1 o2 p2 ho
+  · rw [reqKey_ignores_payload_unless_fetch m1 o1 p1 p2 h5]
+    exact reqKey_eq_of_cacheOpts_eq m1 o1 o2 p2 ho
+
+/-- the other direction, one registration (coap_add_observer's action on the table, any table): a request that is not the same
+    request as any the session's entries were registered with removes nothing; and under a token the session does not use yet it
+    ADDS an entry with that token and key. -/
+theorem registration_of_other_request_keeps (y : Res) (c tok m : Nat) (m2 : Nat) (o2 : List ReqOpt) (p2 : List Nat)
+    (hm2 : m2 < 256) (h2 : WfOpts o2) (hp2 : WfPayload p2)
+    (h : ∀ s ∈ y.subs, s.sess = c → ∃ m1 o1 p1, m1 < 256 ∧ WfOpts o1 ∧ WfPayload p1 ∧ s.key = reqKey m1 o1 p1 ∧
+      ¬ SameRequest m1 o1 p1 m2 o2 p2) :
+    (∀ s ∈ y.subs, s ∈ (addToRes y c tok (reqKey m2 o2 p2) m).subs) ∧
+    (y.subs.any (matchST c tok) = false → ∃ s ∈ (addToRes y c tok (reqKey m2 o2 p2) m).subs,
+      s.sess = c ∧ s.token = tok ∧ s.key = reqKey m2 o2 p2) := by
+  have hnone : y.subs.find? (matchSK c (reqKey m2 o2 p2)) = none := by
+    rw [List.find?_eq_none]
+    intro s' hs' hm
+    unfold matchSK at hm
+    simp only [Bool.and_eq_true, beq_iff_eq] at hm
+    obtain ⟨m1, o1, p1, hm1, w1, wp1, hk, hne⟩ := h s' hs' hm.1
+    have e : s'.key = reqKey m2 o2 p2 := hm.2
+    rw [hk] at e
+    exact hne ((reqKey_eq_iff m1 m2 o1 o2 p1 p2 hm1 hm2 w1 h2 wp1 hp2).mp e)
+  constructor
+  · intro s hs
+    unfold addToRes
+    split
+    · exact hs
+    · rw [hnone]
+      exact List.mem_cons_of_mem _ hs
+  · intro hno
+    unfold addToRes
+    rw [if_neg (by simp [hno]), hnone]
+    exact ⟨_, List.mem_cons_self .., rfl, rfl, rfl⟩
+
+/-- RFC 8132 §2: FETCH requests for the same target with DIFFERENT payloads are different observations — their keys differ
+    (whatever the options: even equal ones), and registering one, on ANY table whose entries of that session are FETCH
+    observations with other payloads, removes none of them and (under an unused token) adds a new entry. -/
+theorem fetch_observations_with_different_payloads_are_distinct (o1 o2 : List ReqOpt) (p q : List Nat)
+    (h1 : WfOpts o1) (h2 : WfOpts o2) (hp : WfPayload p) (hq : WfPayload q) (hpq : p ≠ q) :
+    reqKey 5 o1 p ≠ reqKey 5 o2 q := by
+  intro h
+  exact hpq (((reqKey_eq_iff 5 5 o1 o2 p q (by decide) (by decide) h1 h2 hp hq).mp h).2.2 rfl)
+
+theorem fetch_registration_with_other_payload_keeps (y : Res) (c tok m : Nat) (o2 : List ReqOpt) (q : List Nat)
+    (h2 : WfOpts o2) (hq : WfPayload q)
+    (h : ∀ s ∈ y.subs, s.sess = c → ∃ o1 p, WfOpts o1 ∧ WfPayload p ∧ s.key = reqKey 5 o1 p ∧ p ≠ q) :
+    (∀ s ∈ y.subs, s ∈ (addToRes y c tok (reqKey 5 o2 q) m).subs) ∧
+    (y.subs.any (matchST c tok) = false → ∃ s ∈ (addToRes y c tok (reqKey 5 o2 q) m).subs,
+      s.sess = c ∧ s.token = tok ∧ s.key = reqKey 5 o2 q) := by
+  apply registration_of_other_request_keeps y c tok m 5 o2 q (by decide) h2 hq
+  intro s hs hc
+  obtain ⟨o1, p, w1, wp, hk, hne⟩ := h s hs hc
+  exact ⟨5, o1, p, by decide, w1, wp, hk, fun hsame => hne (hsame.2.2 rfl)⟩
+
+/-- a GET observation and a FETCH observation of the same target are different observations, whatever the FETCH payload -/
+theorem get_and_fetch_observations_are_distinct (o1 o2 : List ReqOpt) (p q : List Nat)
+    (h1 : WfOpts o1) (h2 : WfOpts o2) (hp : WfPayload p) (hq : WfPayload q) : reqKey 1 o1 p ≠ reqKey 5 o2 q := by
+  intro h
+  have := ((reqKey_eq_iff 1 5 o1 o2 p q (by decide) (by decide) h1 h2 hp hq).mp h).1
+  omega
+
+/-- witnesses: the scripted FETCH requests of harness/observe.c for /r0.  (a) ?a + payload `0f 00 01 00 00 00 62`, (b) ?a&b + empty
+    payload, (c) payload "A", (d) payload "AB", (e) the GET -/
+def wFetch (query : List ReqOpt) : List ReqOpt :=
+  [{ num := 6, val := [] }, { num := 11, val := [114, 48] }, { num := 12, val := [0x2a] }] ++ query
+def wPayloadB : List Nat := [0x0f, 0, 1, 0, 0, 0, 0x62]
+example : reqKey 5 (wFetch [{ num := 15, val := [97] }]) wPayloadB ≠ reqKey 5 (wFetch [{ num := 15, val := [97] }, { num := 15, val := [98] }]) [] ∧
+    reqKey 5 (wFetch []) [0x41] ≠ reqKey 5 (wFetch []) [0x41, 0x42] ∧ reqKey 5 (wFetch []) [] ≠ reqKey 1 (wFetch []) [] ∧
+    reqKey 5 ({ num := 4, val := [0x33] } :: wFetch []) [0x41] = reqKey 5 (wFetch []) [0x41] ∧
+    reqKey 1 (wFetch []) [0x41] = reqKey 1 (wFetch []) [] := by decide
+example : WfPayload wPayloadB ∧ WfPayload [0x41, 0x42] := by
+  refine ⟨⟨by decide, ?_⟩, ⟨by decide, ?_⟩⟩ <;> intro b hb <;> simp [wPayloadB] at hb <;> omega
+example : WfOpts (wFetch [{ num := 15, val := [97] }]) := by
+  intro o ho
+  simp only [wFetch, List.cons_append, List.nil_append, List.mem_cons, List.not_mem_nil, or_false] at ho
+  rcases ho with rfl | rfl | rfl | rfl <;> refine ⟨by decide, by decide, ?_⟩ <;> intro b hb <;> simp at hb <;> omega
+/-- hypothesis of `fetch_registration_with_other_payload_keeps` on a non-trivial table: client 0 holds FETCH "A" under token 7,
+    registering FETCH "AB" under token 8 keeps it and adds the new entry -/
+def wFetchRes : Res :=
+  { mkRes 0 false false 5 with subs := [{ sess := 0, token := 7, key := reqKey 5 (wFetch []) [0x41], nonCnt := 0, failCnt := 0,
+                                          dirty := false, mid := 1, lastVer := none }] }
+example : ((addToRes wFetchRes 0 8 (reqKey 5 (wFetch []) [0x41, 0x42]) 2).subs.map fun s => (s.sess, s.token)) = [(0, 8), (0, 7)] ∧
+    ((addToRes wFetchRes 0 8 (reqKey 5 (wFetch []) [0x41]) 2).subs.map fun s => (s.sess, s.token)) = [(0, 8)] := by decide
+
+/-- the defect fixed by a4f9bc4, as decided witnesses: the digest input as it was (options, then the bare FETCH payload, no method)
+    is the same for (a) and (b), and for a GET and a FETCH with the empty payload; the present one tells them apart.  Replays:
+    `obs st=30 R=d0 C=1 reg:0:0:1:5:C:1:0:4 reg:0:0:2:3:C:2:0:1 chg:0 io` and `obs st=30 R=d0 C=1 reg:0:0:1:0:C:1 reg:0:0:2:0:C:2:0:1 chg:0 io` -/
+def digestBeforeFix (code : Nat) (opts : List ReqOpt) (payload : List Nat) : List Nat :=
+  digestInput obsIgnore opts ++ (if code == 5 then payload else [])
+theorem fetch_payload_aliased_before_fix :
+    digestBeforeFix 5 (wFetch [{ num := 15, val := [97] }]) wPayloadB =
+      digestBeforeFix 5 (wFetch [{ num := 15, val := [97] }, { num := 15, val := [98] }]) [] ∧
+    digestBeforeFix 1 (wFetch []) [] = digestBeforeFix 5 (wFetch []) [] ∧
+    reqDigest 5 (wFetch [{ num := 15, val := [97] }]) wPayloadB ≠
+      reqDigest 5 (wFetch [{ num := 15, val := [97] }, { num := 15, val := [98] }]) [] ∧
+    reqDigest 1 (wFetch []) [] ≠ reqDigest 5 (wFetch []) [] := by decide
 
 end Coap.C11
